@@ -19,6 +19,7 @@ class Case:
         self.exp = rec.get("exp")
         self.cls = self.lib["classes"]
         self.tops = self.lib["tops"]
+        self.aliases = self.lib.get("aliases", [])
 
     # ---- names -------------------------------------------------------------------------------
     def cname(self, c):
@@ -33,8 +34,32 @@ class Case:
             return self.cscoped(k["outer"]) + "::" + self.cname(c)
         return (self.ns() + "::" if k["ns"] else "") + self.cname(c)
 
+    def aname(self, a):
+        return "K%dA%d" % (self.i, a)
+
+    def ascoped(self, a):
+        sc = self.aliases[a - 1]["scope"]
+        return (self.cscoped(sc) + "::" if sc else "") + self.aname(a)
+
+    WRAP = {"plain": "%s", "ptr": "%s *", "cptr": "const %s *", "cref": "const %s &", "rref": "%s &&", "val": "%s"}
+
+    def alias_text(self, a):
+        A = self.aliases[a - 1]
+        target = self.cscoped(A["tc"]) if A["tt"] == "cls" else self.ascoped(A["tc"])
+        ty = self.WRAP[A["wrap"]] % target
+        if A["form"] == "using":
+            return "using %s = %s;" % (self.aname(a), ty)
+        return "typedef %s;" % (ty + " " + self.aname(a)).replace("* ", "*").replace("& ", "&").replace("&&" + self.aname(a), "&&" + self.aname(a))
+
+    def use_alias(self, d):
+        """C++ spelling of a type named through alias d["ra"], used as d["uw"]"""
+        return self.WRAP[d["uw"]] % self.ascoped(d["ra"])
+
     def mname(self, c, j):
-        k = self.cls[c - 1]["members"][j - 1]["k"]
+        m = self.cls[c - 1]["members"][j - 1]
+        if m.get("nm"):
+            return m["nm"]
+        k = m["k"]
         if k == "gct":
             return "get_class_type"
         if k in ("dtor", "vdtor"):
@@ -114,6 +139,12 @@ class Case:
             return "void %s(%s *p);" % (n, self.refname(m["rc"], 0))
         if k == "user":
             return "%s *%s();" % (self.refname(m["rc"], 0), n)
+        if k == "alias":
+            return self.alias_text(m["ra"])
+        if k == "usea":
+            return "void %s(%s p);" % (n, self.use_alias(m))
+        if k == "reta":
+            return "%s %s();" % (self.use_alias(m), n)
         if k == "nclass":
             return self.class_text(m["rc"], "  ")
         if k == "vmeth":
@@ -198,6 +229,8 @@ class Case:
             return "void %s(int &&x);" % n
         if k == "usef":
             return "void %s(%s *p);" % (n, self.refname(d["rc"], 0))
+        if k == "usefa":
+            return "void %s(%s p);" % (n, self.use_alias(d))
         if k == "var":
             return "extern int %s;" % n
         if k == "macro":
@@ -228,6 +261,9 @@ class Case:
                 k = self.cls[o["id"] - 1]
                 if k["file"] == f:
                     L.append(self.wrap(self.class_text(o["id"]), k["region"], k["ns"], self.doc(k.get("cm"), self.cname(o["id"]))))
+            elif o["t"] == "a":
+                if self.aliases[o["id"] - 1]["file"] == f:
+                    L.append(self.alias_text(o["id"]))
             else:
                 d = self.tops[o["id"] - 1]
                 if d["file"] == f:
@@ -347,7 +383,7 @@ def observe_case(cs, db):
                     known.add((c, j))
                     if e["is_fully_defined"]:
                         defined.add((c, j))
-            elif kind == "nclass":
+            elif kind in ("nclass", "alias"):
                 pass
             elif kind == "ctor":
                 for f in db.funcs.get(cs.cscoped(c) + "::" + cs.cname(c), []):
